@@ -138,6 +138,19 @@ def build_frugal():
     return rc == 0, out + err
 
 
+def generate_params():
+    """Regenerate lean/FV/Generated/Params.lean from /repo's working tree (go/ast extractor)."""
+    os.makedirs(BUILD, exist_ok=True)
+    src = os.path.join(VERIF, "harness", "extract")
+    binp = os.path.join(BUILD, "extract")
+    rc, out, err = run(["go", "build", "-o", binp + ".%d" % os.getpid(), "."], cwd=src, env=GOENV, timeout=600)
+    if rc != 0: return False, "extractor does not build: " + (out + err)[-800:]
+    os.replace(binp + ".%d" % os.getpid(), binp)
+    rc, out, err = run([binp, REPO, os.path.join(LEAN, "FV", "Generated", "Params.lean")], timeout=120)
+    if rc != 0: return False, "census:Params " + (out + err).strip()[-800:]
+    return True, ""
+
+
 class Results:
     def __init__(self):
         self.cases = []      # (suite, input, real)
